@@ -250,7 +250,8 @@ def _multi_reader(seed, n_readers: int, per_reader: int, cap: int, pol: str):
             t.join()
         return True
 
-    out = run_scenario(seed, body, policy="pct" if hash(str(seed)) % 2 else "weighted", max_steps=20000)
+    import zlib
+    out = run_scenario(seed, body, policy="pct" if zlib.crc32(str(seed).encode()) % 2 else "weighted", max_steps=20000)
     if out.deadlock:
         return "reader-parked-although-signal-queued", sorted(got)
     if out.error is not None or out.budget:
@@ -310,28 +311,34 @@ class C09(Prop):
                 self.__dict__.setdefault("_sampled", set()).add(family)
                 res.sample({"family": family, "spec": sp, "log": [list(map(repr, e)) for e in run.log[:14]]}, 8)
             l, o = C.lin_lines(sp, run)
-            lines_acc.append((sp, l, o))
+            l2, o2 = C.conc_lines(sp, run)
+            lines_acc.append((sp, l, o, l2, o2))
             res.traces_validated += 1
 
     def _conc_lin_diff(self, lines_acc: list, res: Result):
-        all_lines, all_outs, spans = [], [], []
-        for (sp, l, o) in lines_acc:
-            spans.append((len(all_lines), len(l), sp))
-            all_lines += l
-            all_outs += o
-        if not all_lines:
-            return
-        model = LeanDriver(self.driver).run(all_lines)
-        res.count("conc_linearisation_lines", len(all_lines))
-        k = diff_streams(all_lines, all_outs, model)
-        if k is not None:
-            for (start, ln, sp) in spans:
-                if start <= k < start + ln:
-                    res.broken.append(Broken(
-                        "correspondence", "RecvQueue.step on the linearisation vs concurrent QMI_SignalReceiver",
-                        f"line {k - start}: op={all_lines[k]!r} impl={all_outs[k]!r} model={model[k]!r} (before: {all_lines[max(start, k - 5):k]})",
-                        case={"conc": sp}))
-                    break
+        """(1) the critical sections in lock order on the sequential model; (2) the lock-level events of the run on the
+        concurrent model (generated programs): every event enabled, same results, same queue after every section."""
+        for (which, name, counter) in ((1, "RecvQueue.step on the linearisation vs concurrent QMI_SignalReceiver", "conc_linearisation_lines"),
+                                       (3, "RecvConc (generated programs) vs the run's lock-level events", "conc_refinement_lines")):
+            all_lines, all_outs, spans = [], [], []
+            for item in lines_acc:
+                sp, l, o = item[0], item[which], item[which + 1]
+                spans.append((len(all_lines), len(l), sp))
+                all_lines += l
+                all_outs += o
+            if not all_lines:
+                continue
+            model = LeanDriver(self.driver).run(all_lines)
+            res.count(counter, len(all_lines))
+            k = diff_streams(all_lines, all_outs, model)
+            if k is not None:
+                for (start, ln, sp) in spans:
+                    if start <= k < start + ln:
+                        res.broken.append(Broken(
+                            "correspondence", name,
+                            f"line {k - start}: op={all_lines[k]!r} impl={all_outs[k]!r} model={model[k]!r} (before: {all_lines[max(start, k - 6):k]})",
+                            case={"conc": sp}))
+                        break
 
     def _conc_report(self, found: dict, res: Result):
         from harness.props import c09_conc as C
